@@ -24,6 +24,8 @@ CONSTANTS
 %(tail)s
 """
 DEVS = ["RefoldOnSpool", "StripTrailingWS", "LoseDotStuffing", "LowercaseNames", "FieldAfterSigning"]
+# deviations of the h= layer (which fields are listed how often): caught by HRowOK over HRows
+HDEVS = ["CountByConfigSpelling", "LastListWins"]
 ALL_VIAS = ("direct", "pipe_body", "pipe_na")
 
 
@@ -164,15 +166,28 @@ def run(ctx, replay):
                                    cfg_text=cfg("Spec", 1, 1, tail="INVARIANT RowOK\n"))
             r["distinct"] += r2["distinct"]
             r["generated"] += r2["generated"]
+        # the h= layer: every field configuration (defaults / own lists x spelling x duplicate x expiry) x every
+        # naming of up to 2 (thorough 3) fields over 9 names: each required tampering is detected
+        rh = ctx.tlc_expect_ok("MsgShape", None, name="mc-h", workers=2, timeout=900,
+                               cfg_text=cfg("HSpec", 3 if thorough else 2, 1, tail="INVARIANT HRowOK\n"))
+        r["distinct"] += rh["distinct"]
+        r["generated"] += rh["generated"]
         ctx.cov["states"], ctx.cov["transitions"] = r["distinct"], r["generated"]
+        ctx.cov["field_configuration_states"] = rh["distinct"]
         ctx.log("TLC exhaustive: %d shapes, %.1fs" % (r["distinct"], r["wall"]))
         caught = []
-        for dev in DEVS:
-            ra = ctx.tlc("MsgShape", None, name="asis-" + dev, workers=2, timeout=300,
-                         cfg_text=cfg("Spec", 1, 1, devs=[dev], tail="INVARIANT RowOK\n"))
-            if ra["invariant"] != "RowOK":
-                raise vlib.Infra("stage deviation %s is not caught by the model" % dev)
-            caught.append(dev)
+        from concurrent.futures import ThreadPoolExecutor
+        with ThreadPoolExecutor(max_workers=3) as ex:
+            futs = [(dev, "RowOK", ex.submit(ctx.tlc, "MsgShape", None, name="asis-" + dev, workers=2, timeout=300,
+                                             cfg_text=cfg("Spec", 1, 1, devs=[dev], tail="INVARIANT RowOK\n")))
+                    for dev in DEVS]
+            futs += [(dev, "HRowOK", ex.submit(ctx.tlc, "MsgShape", None, name="asis-" + dev, workers=2, timeout=300,
+                                               cfg_text=cfg("HSpec", 2, 1, devs=[dev], tail="INVARIANT HRowOK\n")))
+                     for dev in HDEVS]
+            for dev, inv, fut in futs:
+                if fut.result()["invariant"] != inv:
+                    raise vlib.Infra("deviation %s is not caught by the model" % dev)
+                caught.append(dev)
         ctx.cov["deviations_caught_by_model"] = caught
         n = 1500 if thorough else 160
         g = ctx.tlc("MsgShape", None, name="gen", workers=1, timeout=600, simulate=None,
@@ -234,6 +249,8 @@ def run(ctx, replay):
     ctx.cov["drift_traces"] = drift
     ctx.cov["evaluations"] = len(rows) + nk
     ctx.cov["distinct_nontrivial"] = sum(1 for x in rows if len(x["in"]["hdr"]) + len(x["in"]["body"]) >= 2)
+    ctx.cov["rows_with_own_field_lists"] = sum(1 for x in rows if x["in"].get("fc", {}).get("custom"))
+    ctx.cov["tamperings_judged"] = sum(len(e["out"].get("tampers", [])) for e in evs)
     ctx.cov["rule"] = ("row = message shape drawn by TLC (RandomElement, -seed) from the shape space of MsgShape.tla, "
                        "de-duplicated; non-trivial = at least two header/body atoms")
     for k, v in preds.items():
